@@ -122,6 +122,10 @@ func genMixed(t *rapid.T) *Case {
 		}
 		c.RPCs = append(c.RPCs, r)
 	}
+	if rapid.IntRange(0, 5).Draw(t, "late_send") == 0 {
+		// one carrier SendMsg returns late: its frame travels (and may be answered) while the sending call is still held
+		c.Yields = append(c.Yields, Yield{Point: "carrier.send.afterPush", Nth: rapid.IntRange(0, 14).Draw(t, "late_send.nth"), Kind: "park"})
+	}
 	c.Tape = genTape(t, 0, 400)
 	return c
 }
